@@ -1,104 +1,12 @@
-/* harness + TRUSTED stdio model for the coordinate-file readers (dreadMM, dreadtriple).
- *
- * The "file" is a ghost object *vf_F created by the contract's preconditions (is_fresh => arbitrary
- * contents, constrained only by the well-formedness predicate written in the contract's requires).
- * The stdio stubs below hand its records to the reader one by one.  They are the trusted base of
- * these units: text -> number conversion (what the real sscanf/fscanf do) is NOT verified. */
-#include <stdarg.h>
+/* harness for dreadMM; the TRUSTED stdio model (ghost record source *vf_F) is contracts/vf_mmfile_impl.h */
 #include "slu_ddefs.h"
 #include "vf_prelude.h"
 #include "vf_replaced.h"
-#include "vf_mmfile.h"
+#include "vf_mmfile_impl.h"
 
-struct vf_mmfile *vf_F;
-int nondet_int(void);
-
-/* ---- loop-free string helpers (every literal the reader uses is shorter than 16 chars) ---- */
-#define VF_P(k) d[k] = s[k]; if (!s[k]) return;
-static void vf_put(char *d, const char *s)
-{
-    VF_P(0) VF_P(1) VF_P(2) VF_P(3) VF_P(4) VF_P(5) VF_P(6) VF_P(7)
-    VF_P(8) VF_P(9) VF_P(10) VF_P(11) VF_P(12) VF_P(13) VF_P(14)
-    d[15] = 0;
-}
-#define VF_S(k) if (a[k] != b[k]) return (unsigned char)a[k] < (unsigned char)b[k] ? -1 : 1; if (a[k] == 0) return 0;
-int strcmp(const char *a, const char *b)
-{
-    VF_S(0) VF_S(1) VF_S(2) VF_S(3) VF_S(4) VF_S(5) VF_S(6) VF_S(7)
-    VF_S(8) VF_S(9) VF_S(10) VF_S(11) VF_S(12) VF_S(13) VF_S(14) VF_S(15)
-    return nondet_int();               /* longer than any token of the model: any answer */
-}
-int tolower(int c) { return (c >= 'A' && c <= 'Z') ? c + ('a' - 'A') : c; }
-
-/* a line of arbitrary text: the caller's buffer is left as it is (arbitrary), only NUL-terminated */
-char *fgets(char *s, int size, FILE *stream)
-{
-    (void)stream;
-    s[size - 1] = 0;
-    return s;
-}
-
-/* sscanf: the three uses in dreadMM are told apart by their format string */
-int sscanf(const char *str, const char *fmt, ...)
-{
-    va_list ap;
-    (void)str;
-    va_start(ap, fmt);
-    if (fmt[1] == 's' && fmt[2] == ' ') {          /* "%s %s %s %s %s": the banner line */
-        char *banner = va_arg(ap, char *), *mtx = va_arg(ap, char *), *crd = va_arg(ap, char *);
-        char *arith = va_arg(ap, char *), *sym = va_arg(ap, char *);
-        vf_put(banner, "%%matrixmarket");
-        vf_put(mtx, "matrix");
-        vf_put(crd, "coordinate");
-        vf_put(arith, "real");
-        if (vf_F->sym) vf_put(sym, "symmetric"); else vf_put(sym, "general");
-        va_end(ap);
-        return 5;
-    }
-    if (fmt[1] == 's') {                            /* "%s": first token of the next line */
-        char *tok = va_arg(ap, char *);
-        if (vf_F->comments > 0) { tok[0] = '%'; vf_F->comments--; }
-        else tok[0] = '1';                          /* the size line starts with a number */
-        tok[1] = 0;
-        va_end(ap);
-        return 1;
-    }
-    {                                               /* "%d%d%d": the size line */
-        int *m = va_arg(ap, int *), *n = va_arg(ap, int *);
-        int_t *nonz = va_arg(ap, int_t *);
-        *m = vf_F->m; *n = vf_F->n; *nonz = vf_F->nonz;
-        va_end(ap);
-        return 3;
-    }
-}
-
-/* "%d%d%lf\n": the next coordinate record of the file */
-static int vf_next_record(int *r, int *c, double *v)
-{
-    if (vf_F->pos < 0 || vf_F->pos >= VF_FZ) return -1;   /* EOF */
-    *r = vf_F->row[vf_F->pos];
-    *c = vf_F->col[vf_F->pos];
-    *v = vf_F->val[vf_F->pos];
-    vf_F->pos++;
-    return 3;
-}
-int fscanf(FILE *f, const char *fmt, ...)
-{
-    va_list ap;
-    (void)f; (void)fmt;
-    va_start(ap, fmt);
-    int *r = va_arg(ap, int *), *c = va_arg(ap, int *);
-    double *v = va_arg(ap, double *);
-    va_end(ap);
-    return vf_next_record(r, c, v);
-}
-int fprintf(FILE *f, const char *fmt, ...) { (void)f; (void)fmt; return nondet_int(); }
-
-#ifdef VF_UNIT_DREADMM
+/* all argument objects (and the ghost file) are created by the contract's preconditions */
 void h_dreadMM(void)
 {
     FILE *fp; int *m, *n; int_t *nonz; double **nzval; int_t **rowind, **colptr;
     dreadMM(fp, m, n, nonz, nzval, rowind, colptr);
 }
-void h_dreadMM_bounded(void) { h_dreadMM(); }
-#endif
